@@ -40,6 +40,9 @@ pub struct Project {
 pub enum Cmd {
     Seq { path: Option<String>, tag: Option<String>, output: bool, all_steps: bool, overwrite: Option<bool>, output_all: bool },
     ConvTag { path: Option<String>, tag: String, recurse: bool, output: Option<String> },
+    /// not an asca invocation: the user edits a project file (sandbox-relative path, new text,
+    /// and what the file now means)
+    Edit { path: String, text: String, rules: Option<(String, Vec<Group>)>, words: Option<(String, Vec<String>)> },
 }
 
 impl Cmd {
@@ -69,6 +72,10 @@ impl Cmd {
                 if *output_all {
                     a.push("-i".into());
                 }
+            }
+            Cmd::Edit { path, .. } => {
+                a.push("<edit>".into());
+                a.push(path.clone());
             }
             Cmd::ConvTag { path, tag, recurse, output } => {
                 a.push("conv".into());
@@ -379,6 +386,29 @@ pub fn gen_scn(d: &Data, r: &mut Rng, faulty: bool, bad: Option<&str>) -> Scn {
             fault_seed: r.next_u64(),
             recover: matches!(class, FaultClass::Hard | FaultClass::Crash) && r.chance(1, 2),
         });
+    }
+    if bad.is_none() && invs.len() >= 2 && r.chance(1, 3) {
+        // the user edits a rule file (same group names, other rules) or a word file between two runs
+        let at = r.range(1, invs.len() - 1);
+        let fmt = Fmt::draw(r);
+        let cmd = if r.chance(2, 3) {
+            let stems: Vec<String> = project.rule_files.keys().cloned().collect();
+            let stem = r.pick(&stems).clone();
+            let mut groups = project.rule_files[&stem].clone();
+            for g in groups.iter_mut() {
+                if r.chance(2, 3) {
+                    let nr = r.range(1, 3);
+                    g.rule = (0..nr).map(|_| c19gen::safe_rule(d, r, false)).collect();
+                }
+            }
+            Cmd::Edit { path: format!("{PROJ}/{stem}.rsca"), text: c19gen::render_rsca(&groups, &fmt, r), rules: Some((stem, groups)), words: None }
+        } else {
+            let stems: Vec<String> = project.word_files.keys().cloned().collect();
+            let stem = r.pick(&stems).clone();
+            let words = c19gen::gen_words(d, r);
+            Cmd::Edit { path: crate::cli::resolve(PROJ, &format!("{stem}.wsca")), text: c19gen::render_wsca(&words, &fmt, r), rules: None, words: Some((stem, words)) }
+        };
+        invs.insert(at, Inv { cmd, cwd: PROJ.to_string(), answer: "y".into(), detrand: 1, dirseed: 0, class: FaultClass::None, plan: vec![], fault_seed: 0, recover: false });
     }
     if faulty && bad.is_none() {
         // the final-state invariant: whatever happened before, one fault-free `seq -o -y` puts things right
